@@ -153,11 +153,14 @@ func (f changeFinder) Walk(from, to *value) (equal bool) {
 		}
 
 		// Dereferencing a pointer or interface doesn't affect region.
-		if f.Walk(from.Elem, to.Elem) {
-			f.unchanged(from, to)
-			return true
-		}
-		return false
+		//
+		// The comments stay associated with the node even if it was
+		// modified: those inside the modified code are emptied when the
+		// file is cleaned up, the others (e.g. a comment trailing the
+		// renamed package clause) must still be known to later changes.
+		equal = f.Walk(from.Elem, to.Elem)
+		f.unchanged(from, to)
+		return equal
 
 	case reflect.Slice:
 		if f.walkSlice(from, to) {
@@ -167,11 +170,9 @@ func (f changeFinder) Walk(from, to *value) (equal bool) {
 		return false
 
 	case reflect.Struct:
-		if f.walkStruct(from, to) {
-			f.unchanged(from, to)
-			return true
-		}
-		return false
+		equal = f.walkStruct(from, to)
+		f.unchanged(from, to)
+		return equal
 
 	default:
 		if from.Interface() == to.Interface() {
